@@ -228,6 +228,9 @@ contract(
         # C02: the recorded dict has exactly the new keys, in the new order, with values equal to the new values
         "result-has-the-new-keys-in-order [C02]": "ifdef(['k3'], len(assoc(ret)) == len(dkeys(new_value)) and all(assoc(ret)[i][0] == dkeys(new_value)[i] for i in range(0, len(dkeys(new_value)))))",
         "result-values-equal-the-new-values [C02]": "ifdef(['k3'], all(T(eq(assoc(ret)[i][1], dget(new_value, dkeys(new_value)[i]))) for i in range(0, len(dkeys(new_value)))))",
+        # C10: "containers holding star-expressions are never altered by any category"
+        "star-container-is-frozen [C10]": "implies(old_node is not None and isinstance_node(old_node, 'Dict')"
+            " and any(old_node.keys[j] is None for j in range(0, len(old_node.keys))), same(ret, old_value) and len(trace) == 0)",
     },
     raises={"AssertionError": {"only-the-key-order-sanity-check [C18]": "True"}},
     ghost={"props": ["C11", "C10", "C03"], "assoc_dict_ty": "Tuple[Val,Val]", "none_list_ty": "Node", "locals": {"to_insert": "List[Tuple[Val,Val]]"},
@@ -397,6 +400,68 @@ contract(
         # an argument that is skipped (e.g. because it equals its default) loses its Unmanaged wrapper and gets rewritten
         "every-argument-is-mapped [C10,C06]": "mapped_all_positional and mapped_all_keywords and rebuilt",
     },
+    safety_props=["C18"],
+    assumes=["PS2"],
+)
+
+# ---------------------------------------------------------------------------------------------- SequenceAdapter.map
+
+
+from pyvc.defaults import SHAPES as _SHAPES
+
+
+def pat_map_elements(I, n, env):
+    """[adapter_map(v, map_function) for v in value]: every element goes through adapter_map (PS2)"""
+    I.ghost["mapped_all_elements"] = True
+    return Opaque("mapped elements")
+
+
+def _seq_cls(I):
+    def value_type(I2, items):
+        I2.ghost["rebuilt_from"] = items
+        I2.ghost["n_rebuilt"] = I2.ghost["n_rebuilt"] + 1
+        o = _O2("new-container", {})
+        I2.ghost["new_container"] = o
+        return o
+
+    return value_type
+
+
+_SHAPES.update({"SeqCls": Shape("type", {"value_type": lambda I, items: _seq_cls(I)(I, items)})})
+
+contract(
+    SA + ".SequenceAdapter.map",
+    params={"cls": "@SeqCls", "value": "Opaque", "map_function": "Opaque"},
+    extern_patterns={"[adapter_map(v, map_function) for v in value]": pat_map_elements},
+    ghost={"vars": {"mapped_all_elements": "=False", "n_rebuilt": "=0", "rebuilt_from": "=None", "new_container": "=None"}, "havoc_unknown_externals": True},
+    returns=None,
+    result_name="ret",
+    ensures={
+        # C10: every element is wrapped where needed; C14/C17: the stored argument is a *new* container - never the object the
+        # hand-written argument evaluated to (comparing that object with itself at the next evaluation detects no change)
+        "new-container-of-the-mapped-elements [C14,C17,C10]": "mapped_all_elements and n_rebuilt == 1 and ret is new_container",
+    },
+    safety_props=["C18"],
+    assumes=["PS2"],
+)
+
+
+def pat_map_dict(I, n, env):
+    """{k: adapter_map(v, map_function) for k, v in value.items()}: a new dict with every value mapped (PS2)"""
+    I.ghost["mapped_all_elements"] = True
+    o = _O2("new-container", {})
+    I.ghost["new_container"] = o
+    return o
+
+
+contract(
+    DA + ".DictAdapter.map",
+    params={"cls": "Opaque", "value": "Opaque", "map_function": "Opaque"},
+    extern_patterns={"{k: adapter_map(v, map_function) for (k, v) in value.items()}": pat_map_dict},
+    ghost={"vars": {"mapped_all_elements": "=False", "new_container": "=None"}, "havoc_unknown_externals": True},
+    returns=None,
+    result_name="ret",
+    ensures={"new-dict-of-the-mapped-values [C14,C17,C10]": "mapped_all_elements and ret is new_container"},
     safety_props=["C18"],
     assumes=["PS2"],
 )
